@@ -589,6 +589,23 @@ def bh488(check, prog, canon):
                       show(D[0][2][0]), show(px[0][2][0]), [show(s) for s in sl]))
 
 
+    # the downward recursion starts from the continued fraction evaluated at the
+    # same argument and at the order the recursion starts from:
+    #   dn_1_down(z, nmx, nstop, start_val = lentz_dn1(z, nmx, eps1, eps2))
+    a = D[0][2]
+    mx = intern(('bin', '*', m, x))
+    top = intern(('bin', '+', nstop, num(1)))
+    okr = len(a) == 4 and c0.equal(a[1], top) and c0.equal(a[2], nstop) and \
+        a[3][0] == 'call' and isinstance(a[3][1], str) and \
+        a[3][1].endswith('lentz_dn1') and len(a[3][2]) >= 2 and \
+        c0.equal(a[3][2][0], mx) and c0.equal(a[3][2][1], top)
+    check.require(okr, 'H4-bh-4.88', 'scatcoeffs downward recursion',
+                  'D_n(mx) runs down from order nstop + 1 to nstop orders, started '
+                  'from the Lentz continued fraction at the same argument m x and '
+                  'the same order nstop + 1', loc,
+                  fail_detail='dn_1_down%s' % show(('tuple', a))[:200])
+
+
 def yang(check, prog, canon):
     q = MUL + 'scatcoeffs_multi'
     fd = prog.func(q)
